@@ -25,7 +25,8 @@ RULE = (
     "sixth program has two parameters equal up to case; every transaction has one parameter used exactly once, at a "
     "position that rotates over map key, map value, list element, record field, metadata key and value, validity "
     "bounds, mint amount and redeemer, withdrawal amount and redeemer, an output of its own; plus the reproduced "
-    "corpus case tx t(Qty: Int). "
+    "corpus case tx t(Qty: Int); every transaction of every emitted file is also resolved the way a client would: "
+    "exactly the declared keys through parse_resolve_request, then apply_args. "
     "Non-trivial = every case; distinct = distinct program text"
 )
 ASSUMPTIONS = ["policies needing scripts are not generated yet"]
